@@ -209,6 +209,20 @@ CHECKS = {
         technique="TLA+ machine over a schema family x environment profiles + TLC invariants/action properties; transition replay under real os.environ",
         design="5/C14",
     ),
+    "C16": dict(
+        engine="ArgMachine",
+        text="TLC checks C16_PathsAgree (every enumerated path resolves by dotted lookup to the same field, no duplicates), "
+        "C16_Options (exactly one option per str/int/float field, an on/off pair per bool field, destination = path, none for other "
+        "fields) and the action property C16_OnlySupplied (an override changes exactly the supplied, non-ignored destinations to "
+        "their validated values and nothing else; the empty command line changes nothing) on ArgMachine, which also models "
+        "argparse's store/store_true/store_false semantics; every transition is replayed: the real generated ArgumentParser "
+        "parses the real argv, cmdline_args_override applies it, and Describe cases compare get_all_fields / schema[path] / "
+        "item_ref_path / config[path] / membership / the option table for a schema built top-down and one assembled bottom-up.",
+        note="One schema instance (all scalar storage types, list, virtual field, two nested levels, keys with '_'), 17 command "
+        "lines x 3 ignore lists (none / str / list) x configuration states; root schemas only; argparse abbreviations disabled.",
+        technique="TLA+ model of enumeration, lookup, option generation, argparse and override + TLC; transition replay through the real parser",
+        design="5/C16",
+    ),
 }
 
 PENDING_REASON = "check not built yet in this round (planned, see DESIGN.md section 5); nothing is claimed for it"
